@@ -1475,7 +1475,9 @@ int ReplaceLineUnchecked(
 }
 
 static void SetToken(char* Token, unsigned TokenNum) {
-    Token[0] = (TokenNum >> 4) + 1;
+    /* first byte from a range the second byte cannot take: two tokens in a row
+       (\a\\b\) must not contain a third one */
+    Token[0] = (TokenNum >> 4) + 17;
     Token[1] = (TokenNum & 15) + 1;
     Token[2] = 0;
 }
